@@ -562,10 +562,11 @@ class Program:
             if isinstance(recv, ast.Call) and isinstance(recv.func, ast.Name) and recv.func.id == 'super' and func is not None and func.cls is not None:
                 for b in func.cls.base_names:
                     rb = self._lookup_in_module(module.name, b.split('.')[-1])
-                    if rb is not None and rb.kind == 'class':
+                    if rb is not None and rb.kind == 'class' and rb.target is not func.cls:
                         mm = self.find_method(rb.target, fn.attr)
                         if mm is not None:
                             return Ref('func', mm, fn.attr)
+                return Ref('method', (None, fn.attr), fn.attr)
             if types is not None:
                 t = types.type_of(recv)
                 if t is not None and t[0] == 'cls':
